@@ -285,6 +285,21 @@ func init() {
 		e.callClosure(f, nil)
 		return VBool{BoolC(false)}
 	}
+	// RunGoroutines(env, bodies...): cooperative execution of several goroutine bodies with a
+	// scripted environment that acts when all of them are blocked; reports whether some body
+	// is still blocked at the end
+	intrinsics[S+"RunGoroutines"] = func(e *Exec, a []Value) Value {
+		var env *VFunc
+		if f, ok := a[0].(VFunc); ok && (f.Fn != nil) {
+			env = &f
+		}
+		var bodies []VFunc
+		sl := a[1].(VSlice)
+		for i := 0; i < sl.Len; i++ {
+			bodies = append(bodies, load(sl.Arr.Elems[sl.Off+i]).(VFunc))
+		}
+		return VBool{BoolC(e.runGoroutines(env, bodies))}
+	}
 	intrinsics[S+"Symbolic"] = func(e *Exec, a []Value) Value { return VBool{BoolC(true)} }
 
 	verifHooks["verifBool"] = func(e *Exec, a []Value) Value {
